@@ -855,6 +855,7 @@ def rule_retry_loop(model: Model, fshort: str, rule="RETRY-LOOP", func=None):
             continue
         conj = w.test.values if isinstance(w.test, ast.BoolOp) and isinstance(w.test.op, ast.And) else [w.test]
         form = None
+        sure = True         # the condition certainly holds when the form vanishes
         for c in conj:
             if isinstance(c, ast.Compare) and len(c.ops) == 1 and isinstance(c.ops[0], ast.Eq):
                 for side, other in ((c.left, c.comparators[0]), (c.comparators[0], c.left)):
@@ -862,6 +863,14 @@ def rule_retry_loop(model: Model, fshort: str, rule="RETRY-LOOP", func=None):
                         ops_ = _bilinear_operands(side)
                         if ops_:
                             form = (c, ops_)
+            elif isinstance(c, ast.Compare) and len(c.ops) == 1 and isinstance(c.ops[0], (ast.Lt, ast.LtE, ast.Gt, ast.GtE)):
+                # |form| < tol  (tol > form): holds for a vanishing form when tol is positive
+                small, tol = (c.left, c.comparators[0]) if isinstance(c.ops[0], (ast.Lt, ast.LtE)) else (c.comparators[0], c.left)
+                ops_ = _bilinear_operands(small)
+                if ops_:
+                    form = (c, ops_)
+                    sure = isinstance(tol, ast.Constant) and isinstance(tol.value, (int, float)) and not isinstance(tol.value, bool) and \
+                        (tol.value > 0 or (tol.value == 0 and isinstance(c.ops[0], (ast.LtE, ast.GtE))))
         if form is None:
             continue
         stored = {x.id for s in w.body for x in ast.walk(s) if isinstance(x, ast.Name) and isinstance(x.ctx, ast.Store)}
@@ -913,6 +922,8 @@ def rule_retry_loop(model: Model, fshort: str, rule="RETRY-LOOP", func=None):
             obs.append(Ob(rule, k, OK, model.where(f, w), norm(w.test)[:90], f"the search runs only when `{a}` is non-zero"))
         elif unknown:
             obs.append(Ob(rule, k, ERROR, model.where(f, w), norm(w.test)[:90], f"a test that reads `{a}` precedes the loop but is not one of the recognised zero tests"))
+        elif not sure:
+            obs.append(Ob(rule, k, ERROR, model.where(f, w), norm(w.test)[:90], f"the form is compared with a bound whose sign is not known; no test of `{a}` against zero dominates the loop"))
         else:
             obs.append(Ob(rule, k, VIOLATED, model.where(f, w), norm(w.test)[:90],
                           f"{fshort}: `while {norm(w.test)[:80]}` looks for a vector not orthogonal to `{a}`, and `{a}` is not changed by the loop: for "
